@@ -165,5 +165,5 @@ func cmdFn(args []string) int {
 }
 
 
-func cmdSelftest(args []string) int { fmt.Println("not implemented yet"); return 2 }
+
 
